@@ -302,3 +302,133 @@ Definition case_eqb (other : bool) (o : res robj) (run : robj -> option err * ve
   | Ok ob => oerr_eqb None ctor_err &&
              (if other then outcome_eqb_other (run ob) e d else outcome_eqb (run ob) e d)
   end.
+
+(* ====================================================================================== *)
+(* Histories on copies of a set's members: which object owns which stoichiometry array.
+   Source modelled: ReactionSet.__init__ (rows are the members' arrays), ReactionSet.__getitem__
+   (item / slice: the same rows), ReactionSet.__iter__, ReactionItem.__init__ (the item's
+   _stoichiometry IS row index of its parent), ReactionItem.copy / Reaction.copy (a NEW array,
+   then set_reaction_basis in place on it), Reaction.backwards (copy first, then _rescale in
+   place on the copy), the basis setter (set_reaction_basis in place).
+   A heap of cells holds the arrays; an object is a reference to its cell plus its scalars. *)
+Record href := mkh { hcell : nat; h_ridx : nat; h_X : Q; h_wt : bool; h_ph : list nat }.
+Definition heap := list vec.
+Definition hget (h : heap) (c : nat) : vec := nth c h [].
+Definition as_rxn (h : heap) (o : href) : rxn :=
+  mkrxn (hget h (hcell o)) (h_ridx o) (h_X o) (h_wt o) (h_ph o).
+Definition href_of (c : nat) (r : rxn) : href := mkh c (ridx r) (X r) (wt r) (phases r).
+
+Inductive hop :=
+| HItemCopy (lo k : nat) (b : option bool)                 (* set[lo:][k].copy(b); lo = 0 is set[k] / iteration *)
+| HItemBackwards (k : nat) (r : option nat) (x : option Q) (* set[k].backwards(r, x) *)
+| HSetBasis (j : nat) (b : bool)                           (* derived[j].basis = b *)
+| HCopy (j : nat) (b : option bool)                        (* derived[j].copy(b) *)
+| HBackwards (j : nat) (r : option nat) (x : option Q).    (* derived[j].backwards(r, x) *)
+
+Record hstate := mkhs { hp : heap; derived : list href }.
+
+(* copy(basis): a fresh cell holding a copy of the source's array; set_reaction_basis then works
+   in place on that fresh cell *)
+Definition do_copy (mws : vec) (s : hstate) (src : href) (b : option bool) : res hstate :=
+  let h := hp s in
+  let c := length h in
+  let h1 := h ++ [hget h (hcell src)] in
+  let o := mkh c (h_ridx src) (h_X src) (h_wt src) (h_ph src) in
+  match b with
+  | None => Ok (mkhs h1 (derived s ++ [o]))
+  | Some b => do r' <- set_basis mws (as_rxn h1 o) b;
+              Ok (mkhs (upd h1 c (st r')) (derived s ++ [href_of c r']))
+  end.
+
+(* backwards: new = self.copy(); new._rescale() in place on the copy *)
+Definition do_backwards (s : hstate) (src : href) (r : option nat) (x : option Q) : res hstate :=
+  do r' <- backwards (as_rxn (hp s) src) r x;
+  let c := length (hp s) in
+  Ok (mkhs (hp s ++ [st r']) (derived s ++ [href_of c r'])).
+
+Definition hstep (mws : vec) (members : list href) (s : hstate) (o : hop) : res hstate :=
+  match o with
+  | HItemCopy lo k b =>
+      match nth_error (skipn lo members) k with
+      | Some src => do_copy mws s src b
+      | None => Err EIndex
+      end
+  | HItemBackwards k r x =>
+      match nth_error members k with
+      | Some src => do_backwards s src r x
+      | None => Err EIndex
+      end
+  | HSetBasis j b =>
+      match nth_error (derived s) j with
+      | Some d => do r' <- set_basis mws (as_rxn (hp s) d) b;
+                  Ok (mkhs (upd (hp s) (hcell d) (st r')) (upd (derived s) j (href_of (hcell d) r')))
+      | None => Err EIndex
+      end
+  | HCopy j b =>
+      match nth_error (derived s) j with
+      | Some d => do_copy mws s d b
+      | None => Err EIndex
+      end
+  | HBackwards j r x =>
+      match nth_error (derived s) j with
+      | Some d => do_backwards s d r x
+      | None => Err EIndex
+      end
+  end.
+
+(* an operation that raises leaves every referenced array as it was *)
+Fixpoint hrun (mws : vec) (members : list href) (s : hstate) (ops : list hop) : hstate * list bool :=
+  match ops with
+  | [] => (s, [])
+  | o :: t => match hstep mws members s o with
+              | Ok s' => let (f, oks) := hrun mws members s' t in (f, true :: oks)
+              | Err _ => let (f, oks) := hrun mws members s t in (f, false :: oks)
+              end
+  end.
+
+(* the member reactions of a callable object, in order, and the object rebuilt from a list *)
+Definition set_members (s : rset) : list rxn :=
+  match s with Single r => [r] | Parallel rs => rs | Series rs => rs end.
+Definition flat_members (o : robj) : list rxn :=
+  match o with
+  | Simple _ s => set_members s
+  | System _ ps => concat (map (fun p => set_members (snd p)) ps)
+  end.
+
+Definition take_set (s : rset) (l : list rxn) : rset * list rxn :=
+  match s with
+  | Single r => match l with x :: t => (Single x, t) | [] => (Single r, []) end
+  | Parallel rs => (Parallel (firstn (length rs) l), skipn (length rs) l)
+  | Series rs => (Series (firstn (length rs) l), skipn (length rs) l)
+  end.
+Fixpoint take_parts (ps : list (bool * rset)) (l : list rxn) : list (bool * rset) :=
+  match ps with
+  | [] => []
+  | (b, s) :: t => let (s', l') := take_set s l in (b, s') :: take_parts t l'
+  end.
+Definition rebuild (o : robj) (l : list rxn) : robj :=
+  match o with
+  | Simple b s => Simple b (fst (take_set s l))
+  | System b ps => System b (take_parts ps l)
+  end.
+
+Fixpoint hrefs_from (c : nat) (l : list rxn) : list href :=
+  match l with [] => [] | r :: t => href_of c r :: hrefs_from (S c) t end.
+
+(* the set's rows live in cells 0 .. n-1; run the history; read the set back from the heap *)
+Definition hist_run (mws : vec) (o : robj) (ops : list hop) : robj * list bool * list rxn :=
+  let l := flat_members o in
+  let members := hrefs_from 0 l in
+  let (f, oks) := hrun mws members (mkhs (map st l) []) ops in
+  (rebuild o (map (as_rxn (hp f)) members), oks, map (as_rxn (hp f)) (derived f)).
+
+Definition hist_case_eqb (other : bool) (mws : vec) (o : res robj) (ops : list hop)
+           (oks : list bool) (der : list rxn) (run : robj -> option err * vec)
+           (ctor_err : option err) (e : option err) (d : vec) : bool :=
+  match o with
+  | Err x => oerr_eqb (Some x) ctor_err
+  | Ok ob =>
+      let '(ob', oks', der') := hist_run mws ob ops in
+      oerr_eqb None ctor_err && list_eqb Bool.eqb oks' oks && list_eqb rxn_eqb der' der &&
+      (if other then outcome_eqb_other (run ob') e d else outcome_eqb (run ob') e d)
+  end.
